@@ -211,7 +211,10 @@ func intersect(box orb.Bound, edge int, a, b orb.Point) orb.Point {
 // segment end point lying on the bbox line is returned unchanged. The
 // clipping loop relies on that to terminate for points on the bbox corners.
 func lerp(a, b, t float64) float64 {
-	if t == 1 {
+	if t == 1 || t != t {
+		// t is NaN (0/0) when an earlier cut was rounded onto the bbox line
+		// the other end point lies on: the segment runs in that line and
+		// any of its points is the intersection.
 		return b
 	}
 
